@@ -98,8 +98,7 @@ TDeliver ==
     /\ IsEv("Deliver")
     /\ LET p == Ev.p IN
        /\ cur[p].k = Ev.k
-       /\ (NegVersion(p) \/ InHandle(p))
-       /\ disc'[p] = disc[p]                     \* the delivering branch of InHandle
+       /\ (NegVersion(p) \/ InDeliver(p))
        /\ versionKnown'[p] = Ev.vk /\ verAck'[p] = Ev.va /\ protoVer'[p] = Ev.pv
 
 Why(w) == Ev.why = "" \/ Ev.why = w
@@ -109,18 +108,22 @@ TClose ==
     /\ LET p == Ev.p IN
        /\ ~disc[p]
        /\ IF role[p] = "raw" THEN RawClose(p)
-          ELSE \/ Why("user") /\ UserDisconnect(p)
+          ELSE \/ Ev.why = "user" /\ UserDisconnect(p)     \* only when the harness called Disconnect
                \/ Why("negtimeout") /\ NegTimeout(p)
                \/ Why("idle") /\ IdleTimeout(p)
                \/ Why("ioerr") /\ (NegIOErr(p) \/ InReadErr(p) \/ OutWriteErr(p))
                \/ Why("refuse") /\ NegRefuse(p)
                \/ Why("noversion") /\ NegRejected(p)
                \/ Why("rejected") /\ InRejectDone(p)
-               \/ Why("dupverack") /\ InHandle(p)
+               \/ Why("dupverack") /\ InSwitch(p)
 
 TUserPing == IsEv("UserPing") /\ UserPing(Ev.p)
 
-TraceNext == TReset \/ TSend \/ TRead \/ TDeliver \/ TClose \/ TUserPing
+\* the one step of the code no event shows: the switch of inHandler between a Read and its Deliver
+THidden == /\ l <= Len(Trace) /\ UNCHANGED l
+           /\ \E p \in Peers : InSwitch(p) /\ disc'[p] = disc[p]
+
+TraceNext == TReset \/ TSend \/ TRead \/ TDeliver \/ TClose \/ TUserPing \/ THidden
 TraceSpec == TraceInit /\ [][TraceNext]_tvars
 
 \* high-water mark of consumed trace lines (register 1)
